@@ -347,28 +347,57 @@ pub(crate) async fn start_with_shutdown(
 pub(crate) struct ClusterStorage {
     result_notifiers: HashMap<DbId, ResultNotifier>,
     notifier: tokio::sync::broadcast::Sender<u64>,
+    executor: UnboundedSender<(Log<ClusterAction>, Option<ResultNotifier>)>,
     index: u64,
     term: u64,
     commit: u64,
-    db: ServerDb,
     cluster_log: ClusterLog,
-    db_pool: DbPool,
 }
 
 impl ClusterStorage {
     async fn new(db: ServerDb, cluster_log: ClusterLog, db_pool: DbPool) -> ServerResult<Self> {
         let (index, term, commit) = cluster_log.cluster_log().await?;
         let logs = cluster_log.logs_unexecuted(commit).await?;
+        let notifier = tokio::sync::broadcast::channel(100).0;
+        let (executor, mut queue) =
+            tokio::sync::mpsc::unbounded_channel::<(Log<ClusterAction>, Option<ResultNotifier>)>();
+        let executor_notifier = notifier.clone();
+        let executor_log = cluster_log.clone();
+
+        // Committed logs are executed by this single task one at a time
+        // in the order they were sent, i.e. in the log (index) order.
+        tokio::spawn(async move {
+            while let Some((log, result_notifier)) = queue.recv().await {
+                let db = db.clone();
+                let db_pool = db_pool.clone();
+                let cluster_log = executor_log.clone();
+                let notifier = executor_notifier.clone();
+
+                let _ = tokio::spawn(async move {
+                    #[cfg(agdb_verif)]
+                    crate::verif::delay(log.index).await;
+
+                    let log_id = log.db_id.unwrap_or_default();
+                    let result = log.data.exec(db, db_pool).await;
+                    let _ = notifier.send(log.index);
+                    let _ = cluster_log.log_executed(log_id).await;
+
+                    if let Some(rs) = result_notifier {
+                        let _ = rs.send(result.map(|r| (log.index, r)));
+                    }
+                })
+                .await;
+            }
+        });
 
         let mut storage = Self {
             result_notifiers: HashMap::new(),
-            notifier: tokio::sync::broadcast::channel(100).0,
+            notifier,
+            executor,
             index,
             term,
             commit,
-            db,
             cluster_log,
-            db_pool,
         };
 
         for log in logs {
@@ -380,24 +409,8 @@ impl ClusterStorage {
 
     async fn execute_log(&mut self, log: Log<ClusterAction>) -> ServerResult<()> {
         let log_id = log.db_id.unwrap_or_default();
-        let db = self.db.clone();
-        let db_pool = self.db_pool.clone();
-        let cluster_log = self.cluster_log.clone();
-        let notifier = self.notifier.clone();
         let result_notifier = self.result_notifiers.remove(&log_id);
-
-        tokio::spawn(async move {
-            #[cfg(agdb_verif)]
-            crate::verif::delay(log.index).await;
-
-            let result = log.data.exec(db.clone(), db_pool).await;
-            let _ = notifier.send(log.index);
-            let _ = cluster_log.log_executed(log_id).await;
-
-            if let Some(rs) = result_notifier {
-                let _ = rs.send(result.map(|r| (log.index, r)));
-            }
-        });
+        self.executor.send((log, result_notifier))?;
 
         Ok(())
     }
